@@ -1,6 +1,6 @@
 """C18 - extern-block merging and semantic sorting only regroup items.
 
-(1) Pass-level model checking: every item sequence up to length L over an 18-atom alphabet (x unsafe
+(1) Pass-level model checking: every item sequence up to length L over a 20-atom alphabet (x unsafe
     extern on/off) plus a systematic family of long periodic sequences is pushed through the REAL
     post-processing pipeline (hook H4 = the crate's own postprocessing()), for all four on/off
     combinations; the property's invariants + idempotence + a boring reference model are evaluated on
@@ -34,6 +34,9 @@ ATOMS = [
     'pub mod m{i} { {nested} }',
     'const _: () = { ["x{i}"][0]; };',
     'pub fn k{i}() {}',
+    # several declarations of ONE link symbol under different Rust names (asm labels, the same extern "C" variable in two namespaces)
+    'extern "C" { #[link_name = "shared_static_symbol"] pub static a{i}: i32; }',
+    'extern "C" { #[link_name = "shared_fn_symbol"] pub fn b{i}(); pub fn bb{i}(); }',
 ]
 NESTED = [[0, 8, 1], [3, 0, 9, 0], [12, 4, 12], [15, 0]]  # contents of `mod` atoms (indices into ATOMS); last one nests a module in a module
 
@@ -60,7 +63,7 @@ def long_sequences(tier):
 
 def new_check(tier):
     return Check("C18", tier, LEVEL,
-                 "states = item sequences (every sequence of length<=L over 18 atoms x unsafe-extern on/off, plus all periodic "
+                 "states = item sequences (every sequence of length<=L over 20 atoms x unsafe-extern on/off, plus all periodic "
                  "sequences with period<=2|3 at lengths 24/48); transitions = applications of the real pass pipeline (4 on/off "
                  "combinations + idempotence re-application); non-trivial = distinct pipeline outputs")
 
